@@ -4,8 +4,8 @@ export GOFLAGS=-mod=mod GOPROXY=off GOSUMDB=off GOTOOLCHAIN=local GOWORK=off
 d=$1
 mkdir -p /tmp/rfbase
 for p in $(seq -f "C%02g" 1 20); do
-  ( [ -s /tmp/rfbase/$p.json ] || /verif/bin/bdcheck -prop $p -keys -dir /tmp/rf/base 2>/dev/null | tail -1 > /tmp/rfbase/$p.json
-    r=$(/verif/bin/bdcheck -prop $p -keys -dir $d 2>/dev/null | tail -1)
+  ( [ -s /tmp/rfbase/$p.json ] || ${BD:-/verif/bin/bdcheck} -prop $p -keys -dir /tmp/rf/base 2>/dev/null | tail -1 > /tmp/rfbase/$p.json
+    r=$(${BD:-/verif/bin/bdcheck} -prop $p -keys -dir $d 2>/dev/null | tail -1)
     python3 - "$p" "$(cat /tmp/rfbase/$p.json)" "$r" <<'PY'
 import json,sys
 p=sys.argv[1]; b=json.loads(sys.argv[2]); r=json.loads(sys.argv[3])
